@@ -94,10 +94,6 @@ theorem C11_thread_failure_publishes_broken {c : Cfg} {σ σ' : Sys} (s : Nat)
 
 /-! ### non-vacuity: the F5 shape -/
 
-/-- step 2 depends on steps 0 and 1 -/
-def demoJoin : Cfg :=
-  { n := 3, deps := fun i => if i = 2 then [0, 1] else [], pool := 2, rc := fun _ => run_calculated, noDeps := fun _ => false }
-
 /-- one dependency done, one broken: the waiting step becomes `Broken` (the unrepaired loop polled forever here),
     the run reaches a final state with a verdict for every step -/
 example : (runL demoJoin (init demoJoin)
@@ -110,6 +106,17 @@ example : (runL demoJoin (init demoJoin)
 example : (runL demoJoin (init demoJoin)
     ([.publish 2, .handler 2 .RunConditional, .publish 2, .handler 2 .DependencyStepsRunning, .publish 2] ++
      runTo 0 true ++ runTo 1 false ++ [.handler 2 .DependencyStepsFinishedSuccessfully])).isSome = false := by decide
+
+/-! ### F5 (repaired by C11-F5.patch): the unrepaired wait loop returned only when ALL dependencies were done or
+ALL were broken -/
+
+/-- a reachable state in which every dependency of step 2 has FINISHED in the bulletin (so, by `C10_pub_monotone`,
+    the bulletin never changes again for them) and the unrepaired condition is false: the old loop polled forever,
+    while the repaired guard `waitBroken` is enabled (first example above) -/
+theorem C11_F5_unrepaired_counterexample :
+    ∃ σ, Reach demoJoin σ ∧ allTerminal demoJoin σ 2 = true ∧ oldWaitReturns demoJoin σ 2 = false ∧
+      σ.loc 2 = .WaitingDependencySteps :=
+  ⟨f5State, runL_reach .init f5Labels (Option.some_get f5_isSome).symm, by decide, by decide, by decide⟩
 
 /-- the hypotheses of `C11_progress` are satisfiable (`Ranked`, `WF` for the join) -/
 example : WF demoJoin.n demoJoin.deps ∧ Ranked demoJoin.n demoJoin.deps := by
@@ -156,11 +163,6 @@ theorem C11_relay_sequential_counterexample {cap : Nat} (hcap : 0 < cap) (prog :
   have := sequential_deadlock hcap prog 0 (by omega) (by omega)
   simpa [init] using this
 
-theorem errs_replicate (k : Nat) : errs (List.replicate k true) = k := by
-  induction k with
-  | zero => rfl
-  | succ m ih => simp [List.replicate, errs, ih]; omega
-
 /-- the replayed instance: 65537 bytes to stderr with the Linux pipe capacity of 65536 -/
 theorem C11_relay_K4a_instance :
     ∃ σ, Reach .sequential 65536 (init (List.replicate 65537 true)) σ ∧ Stuck .sequential 65536 σ ∧ σ.phase ≠ .done :=
@@ -180,6 +182,7 @@ end Relay
 #print axioms Sched.C11_final_verdict
 #print axioms Sched.C11_terminates
 #print axioms Sched.C11_thread_failure_publishes_broken
+#print axioms Sched.C11_F5_unrepaired_counterexample
 #print axioms Relay.C11_relay_no_block
 #print axioms Relay.C11_relay_terminates
 #print axioms Relay.C11_relay_sequential_partial
